@@ -65,7 +65,7 @@ func scoresOf(vis []string) []string {
 // docfiltersCase builds the model input for the three document filters from the final dump:
 // Text flags as they are (the filters never change them), all other flags cleared (fresh
 // document), plus the candidate scores captured from the implementation's own log.
-func docfiltersCase(res *distiller.VerifExtractResult) (payload, impl string) {
+func docfiltersCase(d *Doc, res *distiller.VerifExtractResult) (payload, impl string) {
 	var sb strings.Builder
 	fmt.Fprintf(&sb, "%d", len(res.Elems))
 	for _, e := range res.Elems {
@@ -77,10 +77,93 @@ func docfiltersCase(res *distiller.VerifExtractResult) (payload, impl string) {
 	for _, s := range sc {
 		sb.WriteString(" " + s)
 	}
+	sb.WriteString(imageGeometry(d, res))
 	return sb.String(), "ok " + flagsOf(res.Elems)
 }
 
 // sourceOrder lists, in document order, the word tokens and the element vids of the page.
+// imageGeometry: for every image / figure element the harness can place in the SOURCE tree, what
+// the two lead-image scorers look at, computed here on the source tree: depth of the first content
+// text node minus depth of its nearest common ancestor-or-self with the image element, and whether
+// the element or an ancestor is a <figure>.  " k (index depthDiff figure)*"
+func imageGeometry(d *Doc, res *distiller.VerifExtractResult) string {
+	var first *html.Node
+	for _, e := range res.Elems {
+		if e.Kind != "text" || !e.IsContent {
+			continue
+		}
+		// Text.FirstNonWhitespaceTextNode: TextNodes[FirstWordNode]; the dump holds the window [Start, End)
+		if k := e.FirstWord - e.Start; k >= 0 && k < len(e.Nodes) {
+			for _, t := range tokensOf(e.Nodes[k].Data) {
+				for _, n := range d.Nodes {
+					if n.Type == html.TextNode && n.Data == e.Nodes[k].Data && containsTok(n.Data, t) {
+						first = n
+						break
+					}
+				}
+				break
+			}
+		}
+		break
+	}
+	if first == nil {
+		return " 0"
+	}
+	depth := func(n *html.Node) int {
+		k := 0
+		for p := n.Parent; p != nil; p = p.Parent {
+			k++
+		}
+		return k
+	}
+	// the converter replaces a javascript: anchor whose only child is a text node by that text
+	// node in its working copy: there the node is one level higher than in the source
+	lifted := 0
+	if a := first.Parent; a != nil && a.Type == html.ElementNode && a.Data == "a" && strings.HasPrefix(getAttr(a, "href"), "javascript:") &&
+		a.FirstChild == first && first.NextSibling == nil && a.Parent != nil {
+		lifted = 1
+	}
+	anc := map[*html.Node]bool{}
+	for p := first; p != nil; p = p.Parent {
+		anc[p] = true
+	}
+	var parts []string
+	for i, e := range res.Elems {
+		if (e.Kind != "image" && e.Kind != "figure") || e.ElemVid == "" {
+			continue
+		}
+		id, err := strconv.Atoi(e.ElemVid)
+		if err != nil || id < 0 || id >= len(d.Nodes) {
+			continue
+		}
+		n := d.Nodes[id]
+		fig := false
+		var nca *html.Node
+		for p := n; p != nil; p = p.Parent {
+			if p.Type == html.ElementNode && p.Data == "figure" {
+				fig = true
+			}
+			if nca == nil && anc[p] {
+				nca = p
+			}
+		}
+		if nca == nil {
+			continue
+		}
+		parts = append(parts, fmt.Sprintf("%d %d %s", i, depth(first)-lifted-depth(nca), b01(fig)))
+	}
+	return fmt.Sprintf(" %d %s", len(parts), strings.Join(parts, " "))
+}
+
+func containsTok(data, t string) bool {
+	for _, x := range tokensOf(data) {
+		if x == t {
+			return true
+		}
+	}
+	return false
+}
+
 type srcEvent struct {
 	tok string
 	vid string
@@ -202,7 +285,7 @@ func runC08(ctx *Ctx) {
 		rep.Evaluations++
 		replay := pageReplay{HTML: src, URL: pageURL.String()}
 		// FreshMedia premise of the theorem, checked on a single real pass
-		payload, impl := docfiltersCase(res)
+		payload, impl := docfiltersCase(d, res)
 		corr.add(payload, impl, replay)
 		if c08Oracle(ctx, d, root, res, replay) {
 			rep.nontrivial(structHash(res.Elems))
